@@ -3,7 +3,52 @@
 def _info0_pos(sx, v, meta):
     return v[0] == 'ok' and len(v[2]) > 0 and int(v[2][0]) > 0
 
+def _solve_nontrivial(sx, v, meta):
+    # non-trivial: not decided by the empty problem, i.e. the case has at least 2 constraints
+    return sx.count('(0 1 ') + sx.count('(1 ') + sx.count('(2 ') >= 2
+
+def _verdict_stats(lines, verdicts):
+    sat = sum(1 for v in verdicts if v[0] == 'ok' and v[2][:1] == ['1'])
+    unsat = sum(1 for v in verdicts if v[0] == 'ok' and v[2][:1] == ['2'])
+    return dict(verdict_sat=sat, verdict_unsat=unsat)
+
 PROPS = {
+    'C01': dict(
+        judge='solve', judge_module='Judge.J01', judge_fn='judge_solve_case',
+        cases=dict(quick=10000, thorough=60000),
+        exhaustive=dict(quick=True, thorough=True),
+        rule='cases 0..7310 = EVERY ordered list of <=2 clauses of <=3 literals over 2 variables (duplicates, tautologies, '
+             'empty and unit clauses included) through ParseSlice / ParseSliceNb(+2 unused variables) / ParseCNF, then random '
+             'CNF (mixed lengths with 10% duplicate literals and 5% tautologies, unit-rich, 3-SAT near the threshold for '
+             'n in [3,14] and [15,30], pigeonhole 2-4, parity chains); configuration rotates over certificate on/off x '
+             'learned-clause limit default/4/20 (hook). Non-trivial = at least 2 clauses; distinct = distinct (case, observables) text',
+        nontrivial=_solve_nontrivial, stats=_verdict_stats,
+        assumptions=['termination and absence of panics are observed per run (10 s limit per case), not proved'],
+    ),
+    'C02': dict(
+        theorem_files=['C02', 'C02b'],
+        judge='solve', judge_module='Judge.J01', judge_fn='judge_solve_case',
+        cases=dict(quick=8000, thorough=80000),
+        rule='random sets of 1..n+3 cardinality / PB constraints over 1..10 (quick) or 1..16 (thorough) variables built through '
+             'the public constructors (AtLeast1 AtMost1 Exactly1 CardConstr, PropClause AtLeast AtMost GtEq LtEq Eq), '
+             'coefficients in [-W,W] W in {1,2,4,9} incl. 0, degree from below the minimum to above the maximum of the sum, '
+             'through ParseCardConstrs and ParsePBConstrs; non-trivial = at least 2 constraints',
+        nontrivial=_solve_nontrivial, stats=_verdict_stats,
+        assumptions=['each variable occurs at most once per constraint (as the property states)',
+                     'Go int overflow is not modelled (coefficients are small)'],
+    ),
+    'C03': dict(
+        judge='C03', judge_module='Judge.J03', judge_fn='judge_C03',
+        cases=dict(quick=8000, thorough=80000),
+        rule='random problems (CNF, long clauses, 3-SAT, cardinality, PB; 2..9 variables quick, 2..13 thorough) x cost function '
+             'over 0..6 distinct variables, either polarity, weights 0..6 with zeros and repeats, nil weight slice, empty cost, '
+             'no cost function; entry points Optimal(nil), Optimal(chan), Minimize; one third of the PB/cardinality problems go '
+             'through an OPB text with a min: line, a quarter of those with negative cost coefficients; non-trivial = satisfiable '
+             'with optimum > 0',
+        nontrivial=lambda sx, v, meta: v[0] == 'ok' and len(v[2]) > 1 and int(v[2][1]) > 0,
+        stats=_verdict_stats,
+        assumptions=['cost literals are over distinct variables (as the property states)'],
+    ),
     'C05': dict(
         judge='C05', judge_module='Judge.J05', judge_fn='judge_C05',
         cases=dict(quick=3000, thorough=40000),
